@@ -373,24 +373,34 @@ let () =
       let b = read_dump a.(3) (2 * n65) in
       explain cname cls k n65 b (int_of_string a.(4))
   | "probe" ->
-      (* stdin: "U c pre enough ok" | "X" | "C" | "P"; prints per line the prediction of both
-         variants of Probe.v:  ret installed reads_partial | ret installed reads_partial *)
+      (* stdin: "U c pre enough ok|aPHASE" | "X" | "C" | "H" | "P c"; prints per line the prediction
+         of the three variants of Probe.v (Current | Fixed | KeepOld), each as
+         "ret installed_class(-1 = none) unsound_read" *)
       let ops = ref [] in
       (try
          while true do
            let line = input_line stdin in
            match String.split_on_char ' ' (String.trim line) with
-           | ["U"; c; pre; enough; ok] ->
-               ops := OUpdate (nat_of_int (int_of_string c), pre = "1", enough = "1", ok = "1") :: !ops
+           | ["U"; c; pre; enough; out] ->
+               let o = if out = "ok" then GenOk
+                 else GenAborted (nat_of_int (int_of_string (String.sub out 1 (String.length out - 1)))) in
+               ops := OUpdate (nat_of_int (int_of_string c), pre = "1", enough = "1", o) :: !ops
            | ["X"] -> ops := OUnsuitable :: !ops
            | ["C"] -> ops := OClear :: !ops
-           | ["P"] -> ops := OProbe :: !ops
+           | ["H"] -> ops := OHash :: !ops
+           | ["P"; c] -> ops := OProbe (nat_of_int (int_of_string c)) :: !ops
            | _ -> ()
          done
        with End_of_file -> ());
       let ops = List.rev !ops in
-      let rc = prun Current pinit ops and rf = prun Fixed pinit ops in
+      let run v = prun Nat.eqb v pinit ops in
+      let rc = run Current and rf = run Fixed and rk = run KeepOld in
       let b x = if x then 1 else 0 in
-      List.iter2 (fun ((r1, i1), p1) ((r2, i2), p2) ->
-        Printf.printf "%d %d %d | %d %d %d\n" (b r1) (b i1) (b p1) (b r2) (b i2) (b p2)) rc rf
+      let g = function Some c -> int_of_nat c | None -> -1 in
+      let rec go a b' c = match a, b', c with
+        | ((r1, i1), p1) :: ta, ((r2, i2), p2) :: tb, ((r3, i3), p3) :: tc ->
+            Printf.printf "%d %d %d | %d %d %d | %d %d %d\n" (b r1) (g i1) (b p1) (b r2) (g i2) (b p2) (b r3) (g i3) (b p3);
+            go ta tb tc
+        | _ -> () in
+      go rc rf rk
   | _ -> failwith "bad mode"
